@@ -19,6 +19,7 @@ from ..engine import Ctx
 from ..report import Report
 from ..rules import ga
 from ..rules import q
+from ..rules import valnum
 from ..source import AnalysisError
 from ..source import FunctionInfo
 from ..source import norm
@@ -336,20 +337,24 @@ def grid(ctx: Ctx, rep: Report) -> None:
         and t.attr.startswith('convert_') and t.attr != 'convert_target'
     })
     pairs: list[tuple[str, str, int]] = []
-    for s in ast.walk(f.node):
-        if not isinstance(s, ast.If):
+    g = ctx.cfg(f)
+    for node in g.nodes:
+        if node.kind != 'test' or not isinstance(node.stmt, ast.If):
             continue
-        fl = [x.attr for x in ast.walk(s.test) if isinstance(
+        # hoisted sub-tests (`to_constant = self.convert_target == ...`)
+        # are read through their definitions
+        test = valnum.subst(ctx, f, node, node.stmt.test)
+        fl = [x.attr for x in ast.walk(test) if isinstance(
             x, ast.Attribute) and x.attr in flags]
         tg = [
-            k.comparators[0].value for k in ast.walk(s.test)
+            k.comparators[0].value for k in ast.walk(test)
             if isinstance(k, ast.Compare) and any(
                 isinstance(x, ast.Attribute) and x.attr == 'convert_target'
                 for x in ast.walk(k.left))
             and isinstance(k.comparators[0], ast.Constant)
         ]
         if len(fl) == 1 and len(tg) == 1:
-            pairs.append((fl[0], tg[0], s.lineno))
+            pairs.append((fl[0], tg[0], node.lineno))
     rep.count()
     dup = sorted({p[:2] for p in pairs if sum(
         1 for q in pairs if q[:2] == p[:2]) > 1})
